@@ -745,6 +745,8 @@ def run(ctx, res):
     # the affine GLV hook (endomorphism_affine) feeds glv_mul_affine: phi(O) must be O (shared with C12's fast subgroup tests)
     from rules import c12
     c12.check_endoinf(res, facts)
+    from rules import c04_value
+    c04_value.check_daa_value(res, facts, ctx.tier)
     return {
         "level": "other",
         "explanation": "Loop-recurrence typing and dataflow rules over the MIR of ark-ec / ark-ff scalar multiplication and exponentiation loops and of every curve crate's overrides of the raw-limb entry points; GLV constants and lattice bases are decided exhaustively under C16. Does NOT decide equality of any path's result with k*P, correctness of wNAF digits (C15); the fixed-base table layout and window arithmetic are decided structurally (R-FIXEDBASE), not as a run-time equality.",
